@@ -43,7 +43,13 @@ class InternedMC(type):
     def __call__(cls, **kwargs):
         kwargs = {**cls._constructor_defaults, **kwargs}
         key = tuple(sorted(kwargs.items()))
-        if key not in cls._cache:
+        try:
+            known = key in cls._cache
+        except TypeError:
+            # A value that cannot be hashed (f(x=L) with L a list): the
+            # selector is valid, it just cannot be shared
+            return super().__call__(**kwargs)
+        if not known:
             cls._cache[key] = super().__call__(**kwargs)
         return cls._cache[key]
 
